@@ -238,7 +238,7 @@ func (d *DFA) SearchAtAnchored(cache *DFACache, haystack []byte, at int) int {
 	// Get ANCHORED start state (requires match to start exactly at 'at')
 	currentState := d.getStartState(cache, haystack, at, true)
 	if currentState == nil {
-		return d.nfaFallback(cache, haystack, at)
+		return d.nfaFallbackAnchored(cache, haystack, at)
 	}
 
 	lastMatch := -1
@@ -271,14 +271,14 @@ func (d *DFA) SearchAtAnchored(cache *DFACache, haystack []byte, at int) int {
 		case InvalidState:
 			currentState = cache.getState(sid)
 			if currentState == nil {
-				return d.nfaFallback(cache, haystack, at)
+				return d.nfaFallbackAnchored(cache, haystack, at)
 			}
 			nextState, err := d.determinize(cache, currentState, b)
 			if err != nil {
 				if isCacheCleared(err) {
 					currentState = d.getStartState(cache, haystack, pos, true)
 					if currentState == nil {
-						return d.nfaFallback(cache, haystack, at)
+						return d.nfaFallbackAnchored(cache, haystack, at)
 					}
 					sid = currentState.id
 					ft = cache.flatTrans
@@ -286,7 +286,7 @@ func (d *DFA) SearchAtAnchored(cache *DFACache, haystack []byte, at int) int {
 					pos--
 					continue
 				}
-				return d.nfaFallback(cache, haystack, at)
+				return d.nfaFallbackAnchored(cache, haystack, at)
 			}
 			if nextState == nil {
 				return lastMatch
@@ -1434,10 +1434,18 @@ func (d *DFA) determinize(cache *DFACache, current *State, b byte) (*State, erro
 			// Max clears exceeded - fall back to NFA
 			return nil, clearErr
 		}
-		// Cache was cleared successfully. Return errCacheCleared to signal
-		// the search loop that all state pointers are now stale and it must
-		// re-obtain the start state at the current position.
-		return nil, errCacheCleared
+		// Cache was cleared successfully: all earlier states (including
+		// current) are gone, so no transition is recorded. The search must
+		// go on from the state just computed - restarting from a start state
+		// at the current position would forget every thread that is in the
+		// middle of a match (and, for an anchored or reverse scan, the anchor).
+		newState.id = InvalidState
+		if _, err := cache.Insert(key, newState); err != nil {
+			// Not even one state fits next to the start state: NFA fallback
+			return nil, err
+		}
+		cache.registerState(newState)
+		return newState, nil
 	}
 
 	// Register state in ID lookup map
@@ -1595,9 +1603,10 @@ func (d *DFA) getStartState(cache *DFACache, haystack []byte, pos int, anchored 
 	// This handles the case where another goroutine may have inserted it
 	insertedState, existed, err := cache.GetOrInsert(key, state)
 	if err != nil {
-		// Cache full - return the computed state anyway
-		// (it won't be cached, but search can continue)
-		return state
+		// Cache full: a state that is not in the cache has no ID, and the search
+		// loops index the transition table by ID. Report "no start state" so the
+		// caller takes its NFA fallback.
+		return nil
 	}
 
 	// Register in ID lookup map (only if we inserted a new state)
@@ -1651,6 +1660,17 @@ func (d *DFA) nfaFallback(cache *DFACache, haystack []byte, startPos int) int {
 	}
 
 	// PikeVM.SearchAt returns absolute positions
+	return end
+}
+
+// nfaFallbackAnchored is nfaFallback for a search anchored at startPos: the
+// leftmost-first match either begins at startPos (then it is the anchored
+// match) or no match begins there at all.
+func (d *DFA) nfaFallbackAnchored(cache *DFACache, haystack []byte, startPos int) int {
+	start, end, matched := d.fallbackVM(cache).SearchAt(haystack, startPos)
+	if !matched || start != startPos {
+		return -1
+	}
 	return end
 }
 
@@ -2080,8 +2100,7 @@ func (d *DFA) IsMatchReverse(cache *DFACache, haystack []byte, start, end int) b
 
 	currentState := d.getStartStateForReverse(cache, haystack, end)
 	if currentState == nil {
-		_, _, matched := d.fallbackVM(cache).Search(haystack[start:end])
-		return matched
+		return d.nfaFallbackReverse(cache, haystack, start, end) >= 0
 	}
 
 	// With 1-byte match delay, start states are never match states.
@@ -2108,16 +2127,14 @@ func (d *DFA) IsMatchReverse(cache *DFACache, haystack []byte, start, end int) b
 		case InvalidState:
 			currentState = cache.getState(sid)
 			if currentState == nil {
-				_, _, matched := d.fallbackVM(cache).Search(haystack[start:end])
-				return matched
+				return d.nfaFallbackReverse(cache, haystack, start, end) >= 0
 			}
 			nextState, err := d.determinize(cache, currentState, b)
 			if err != nil {
 				if isCacheCleared(err) {
 					currentState = d.getStartStateForReverse(cache, haystack, at+1)
 					if currentState == nil {
-						_, _, matched := d.fallbackVM(cache).Search(haystack[start:end])
-						return matched
+						return d.nfaFallbackReverse(cache, haystack, start, end) >= 0
 					}
 					sid = currentState.id
 					ft = cache.flatTrans
@@ -2125,8 +2142,7 @@ func (d *DFA) IsMatchReverse(cache *DFACache, haystack []byte, start, end int) b
 					at++ // Will be decremented by for-loop
 					continue
 				}
-				_, _, matched := d.fallbackVM(cache).Search(haystack[start:end])
-				return matched
+				return d.nfaFallbackReverse(cache, haystack, start, end) >= 0
 			}
 			if nextState == nil {
 				return false
@@ -2178,7 +2194,8 @@ func (d *DFA) getStartStateForReverse(cache *DFACache, haystack []byte, end int)
 
 	insertedState, existed, err := cache.GetOrInsert(key, state)
 	if err != nil {
-		return state
+		// Cache full: see getStartState
+		return nil
 	}
 
 	if !existed {
@@ -2194,10 +2211,41 @@ func (d *DFA) getStartStateForReverse(cache *DFACache, haystack []byte, end int)
 
 // nfaFallbackReverse handles NFA fallback for reverse search.
 func (d *DFA) nfaFallbackReverse(cache *DFACache, haystack []byte, start, end int) int {
-	// For reverse fallback, we need to search the region and find match start
-	matchStart, _, matched := d.fallbackVM(cache).Search(haystack[start:end])
-	if !matched {
-		return -1
+	// d.nfa is the REVERSED automaton here: it has to be fed the bytes of
+	// haystack[start:end] from the back, anchored at end. The PikeVM only
+	// runs forward, so the fallback performs the same subset construction as
+	// the cached search (same start state, same transition function, same
+	// 1-byte match delay), just without storing the states it passes through.
+	builder := NewBuilderWithWordBoundary(d.nfa, d.config, d.hasWordBoundary)
+
+	kind := StartText
+	if end < len(haystack) {
+		kind = cache.startTable.GetKind(haystack[end])
 	}
-	return start + matchStart
+	startState, _ := ComputeStartStateWithStride(builder, d.nfa, StartConfig{Kind: kind, Anchored: false}, d.AlphabetLen())
+	current := startState.NFAStates()
+	isFromWord := startState.IsFromWord()
+
+	lastMatch := -1
+	for at := end - 1; at >= start; at-- {
+		b := haystack[at]
+		if d.hasEndLine && b == '\n' {
+			current = builder.epsilonClosure(current, LookEndLine)
+		}
+		sourceHasMatch := builder.containsMatchState(current)
+		next := builder.moveWithWordContextBreak(current, b, isFromWord, sourceHasMatch && d.config.BreakAtMatch)
+		if sourceHasMatch {
+			lastMatch = at + 1
+		}
+		if len(next) == 0 {
+			return lastMatch
+		}
+		current = next
+		isFromWord = isWordByte(b)
+	}
+
+	if containsNFAMatch(d.nfa, current) {
+		lastMatch = start
+	}
+	return lastMatch
 }
